@@ -41,6 +41,11 @@ def apply_body_rules(body, unit, c, f):
     body = re.sub(r'cast\(\s*f64::consts::PI\s*\*\s*2\.0\s*\)\s*\.unwrap\(\)', 'Sc::const_two_pi()', body)
     # R5 literal casts
     body = CAST_RE.sub(lit_const, body)
+    # R13 approx builder forms
+    body = re.sub(r'::approx::Ulps::default\(\)\s*\.eq\(', 'ulps_default_eq(', body)
+    body = re.sub(r'::approx::Ulps::default\(\)\s*\.ne\(', 'ulps_default_ne(', body)
+    body = re.sub(r'::approx::AbsDiff::default\(\)\s*\.eq\(', 'abs_diff_default_eq(', body)
+    body = re.sub(r'::approx::AbsDiff::default\(\)\s*\.ne\(', 'abs_diff_default_ne(', body)
     # R6 get_unchecked
     body = re.sub(r'\*\s*([A-Za-z_][A-Za-z0-9_]*)\.get_unchecked\(([^()]*)\)', r'\1[\2]', body)
     # R12 unsafe blocks whose content is now safe
